@@ -254,6 +254,9 @@ def run(tier, replay=None):
     # the feature that selects this code must be reachable from the crate a user enables it on (manifest wiring)
     from .. import features
     features.check(rep)
+    # values built by the compile-time macros belong to this property's domain as well: the macro witnesses of C16 (cached per tree)
+    from . import c16
+    c16.witness_family(rep, tier)
     rep.explanation = ('(a) the four direction constants equal, as sets, the independent derivation from the 710 layout files and are pairwise disjoint (data rules); '
                        '(b) character_direction is read from MIR as a decision list whose atoms are all interpretable (presence, membership in a direction constant, outcome of '
                        'maximize(language, None, region)); variants are never read; (c) the checker applies that list, with its own model of maximize built from likelySubtags.json, '
